@@ -5,6 +5,7 @@
   vectors of any lengths), EVERY sequence `cs` of `random.choice` outcomes and every padding value `one`.
 -/
 import NemoVerif.Lemmas.Conflict
+import NemoVerif.Models.Match
 namespace NemoVerif.C05
 open NemoVerif.Conflict List
 
@@ -204,6 +205,75 @@ theorem shared_action_cowin_as_is_counterexample :
 theorem only_input_heads (one : Int) (hs : List HeadInfo) (cs : List Nat) (p : HeadInfo × Fate)
     (hp : p ∈ resolveFates one hs cs) : p.1 ∈ hs :=
   mem_fates_fst hp
+
+/-! ### The ranks are the matcher's scores
+
+  The harness hands `resolve` the RANK of every float of a call.  The theorems below tie that order to the matcher
+  (`Match.eventScore`, C04): an entry of `matching_scores` is `prio · (num/den)^k`; `mlt` compares such numbers exactly
+  (integers, cross-multiplied).  `r` is any rank function that respects the exact order (`hr`; checked on every run: the
+  driver's `mcmp` against the floats the real `_compute_event_comparison_score` returns). -/
+
+/-- the fuzzy-match base of the CURRENT source (translator-generated constants) is a proper fraction
+    (same fact as `C04.base_lt_one`, re-checked here against `Generated.C04`) -/
+theorem base_lt_one : 0 < Generated.C04.scoreBaseNum ∧ Generated.C04.scoreBaseNum < Generated.C04.scoreBaseDen := by decide
+
+abbrev bnum := Generated.C04.scoreBaseNum
+abbrev bden := Generated.C04.scoreBaseDen
+
+/-- `better_score_wins`: if, at the first position where the score vectors of two heads of one loop differ, head A's
+    score is exactly greater than head B's, then B is not the picked head of their loop — for every tie-break. -/
+theorem better_score_wins (r : MScore → Int) (hr : ∀ x y, mlt bnum bden x y → r x < r y)
+    (one : Int) (hs : List HeadInfo) (cs : List Nat) (A B : HeadInfo) (hA : A ∈ hs) (hl : A.loop = B.loop)
+    (pre : List Int) (a b : MScore) (ta tb : List Int)
+    (hsa : A.scores = pre ++ r a :: ta) (hsb : B.scores = pre ++ r b :: tb) (hab : mlt bnum bden b a) :
+    (B, Fate.picked) ∉ resolveFates one hs cs := by
+  intro hB
+  have hmax := winner_is_max one hs cs B hB A hA hl
+  rw [hsa, hsb, padTo_split, padTo_split, lexLe_prefix_lt pre (hr b a hab)] at hmax
+  exact Bool.false_ne_true hmax
+
+/-- `more_specific_wins`: both flows matched the same event under the same flow priority; at the first differing
+    position of the score vectors A's match statement left FEWER parameters of the event unmentioned
+    (`Match.eventScore`'s exponent: kA < kB).  Then B is not picked: the most specific match wins. -/
+theorem more_specific_wins (rx : Match.Rx) (sa : String → Option (List (String × Val))) (ev refA refB : Match.Ev)
+    (p pA pB : Option (Int × Nat)) (kA kB : Int)
+    (hEA : Match.eventScore rx sa ev refA p = .pos kA pA) (hEB : Match.eventScore rx sa ev refB p = .pos kB pB)
+    (hk0 : 0 ≤ kA) (hlt : kA < kB) (hp : 0 < (MScore.mk 0 p).pnum)
+    (r : MScore → Int) (hr : ∀ x y, mlt bnum bden x y → r x < r y)
+    (one : Int) (hs : List HeadInfo) (cs : List Nat) (A B : HeadInfo) (hA : A ∈ hs) (hl : A.loop = B.loop)
+    (pre ta tb : List Int)
+    (hsa : A.scores = pre ++ r ⟨kA.toNat, pA⟩ :: ta) (hsb : B.scores = pre ++ r ⟨kB.toNat, pB⟩ :: tb) :
+    (B, Fate.picked) ∉ resolveFates one hs cs := by
+  have hprio : ∀ (ref : Match.Ev) (k : Int) (q : Option (Int × Nat)), Match.eventScore rx sa ev ref p = .pos k q → q = p := by
+    intro ref k q h
+    unfold Match.eventScore at h
+    split at h
+    · injection h with _ h2; exact h2.symm
+    · rename_i hne; exact absurd h (by intro e; exact hne k q e)
+  have e1 := hprio refA kA pA hEA
+  have e2 := hprio refB kB pB hEB
+  rw [e1] at hsa; rw [e2] at hsb
+  refine better_score_wins r hr one hs cs A B hA hl pre ⟨kA.toNat, p⟩ ⟨kB.toNat, p⟩ ta tb hsa hsb ?_
+  exact mlt_of_more_unmentioned base_lt_one.1 base_lt_one.2 ⟨kA.toNat, p⟩ ⟨kB.toNat, p⟩ rfl hp (by simp only; omega)
+
+/-- non-vacuity of `hr` and of the exact order: 0.9^1 < 1.0·0.9^0, and priority 1/2 on a perfect match loses against
+    an unscaled match with one unmentioned parameter (5/10 < 9/10).  Finite facts, by evaluation. -/
+example : mlt bnum bden ⟨1, none⟩ ⟨0, none⟩ ∧ mlt bnum bden ⟨0, some (1, 1)⟩ ⟨1, none⟩ ∧ ¬ mlt bnum bden ⟨2, none⟩ ⟨2, none⟩ := by decide
+
+/-- A vector that ends is padded with the perfect score: a head whose vector is a proper prefix of another head's beats
+    it as soon as the other head's next match is not perfect ([0.9] beats [0.9, 0.5]). -/
+theorem shorter_chain_beats_imperfect_continuation (r : MScore → Int) (hr : ∀ x y, mlt bnum bden x y → r x < r y)
+    (hs : List HeadInfo) (cs : List Nat) (A B : HeadInfo) (hA : A ∈ hs) (hBm : B ∈ hs) (hl : A.loop = B.loop)
+    (pre : List Int) (b : MScore) (tb : List Int)
+    (hsa : A.scores = pre) (hsb : B.scores = pre ++ r b :: tb) (hb : mlt bnum bden b MScore.perfect) :
+    (B, Fate.picked) ∉ resolveFates (r MScore.perfect) hs cs := by
+  intro hB
+  have hmax := winner_is_max (r MScore.perfect) hs cs B hB A hA hl
+  have hlen : pre.length < maxLen (hs.filter (fun x => x.loop == B.loop)) := by
+    have := mem_maxLen_le (g := hs.filter (fun x => x.loop == B.loop)) (h := B) (mem_filter.2 ⟨hBm, by simp⟩)
+    rw [hsb] at this; simp at this; omega
+  rw [hsa, hsb, padTo_short _ _ pre hlen, padTo_split, lexLe_prefix_lt pre (hr b _ hb)] at hmax
+  exact Bool.false_ne_true hmax
 
 /-- The sort of the model is the core library's stable merge sort with the same comparator (stability of Python's
     `sorted(..., reverse=True)` is the modelled assumption). -/
